@@ -7,11 +7,15 @@
    an instruction boundary, a run off the code, or the "non-empty stack" internal error -- whichever way
    its conditional jumps go, including the operand a particular run skips (C10_both_branches).  The
    depth is the same along all paths into each instruction (C10_depth_unique).  `verify` is run on the
-   code the REAL compiler produced for every generated program (certificate checking); that the compiler
-   only ever produces verifiable code is the conjunction of T2 and a labelling lemma for the code
-   generator, tested on every program, Coq proof in progress. *)
+   code the REAL compiler produced for every generated program (certificate checking); that compiled code
+   is well-formed along the path a run TAKES is also a corollary of T1 and T2 (C10_compiled_runs_clean: executing
+   the code Parse produced for any accepted text ends in success, a runtime error of the language, the
+   excluded repetition case or one of the two documented limits -- never an internal error or a panic site);
+   the stronger all-paths statement for compiled code (every compiled program passes `verify`) remains tested
+   on every generated program rather than proved. *)
 From BCL Require Import Model.Vm Model.Verify Model.Api Proofs.OptionsProofs Proofs.VerifyProofs.
 Open Scope N_scope.
+From BCL Require Import Model.Api Model.Compile Spec.Syntax Spec.AstSem Proofs.ParserInvProofs Proofs.T2Expr Proofs.T2Proofs Proofs.T1Expr Proofs.T1Proofs Proofs.Language.
 
 Theorem C10_check_sound : forall p fuel tr, verify p = true ->
   let (m, r) := run_fuel fuel p tr (init_vm p) in
@@ -75,6 +79,17 @@ Theorem C10_blocks_balanced : forall p tr k m, verify p = true -> reach_cnt p tr
   length (result m) = k /\ Forall isblk (result m) /\ btos m = nlen (bstack m) /\ Forall isblk (bstack m).
 Proof. first [exact VerifyProofs.C10_blocks_balanced | apply VerifyProofs.C10_blocks_balanced]. Qed.
 Print Assumptions C10_blocks_balanced.
+
+Theorem C10_compiled_runs_clean : forall name src,
+  let pr := parse_whole name src in
+  pr_ok pr = true -> pr_oof pr = false -> pr_panic pr = false ->
+  ps_constants (pr_stats pr) < 2^64 ->
+  match rr_res (execute (pr_prog pr) false false) with
+  | VOk | VErr _ _ | VPanic PExcluded => True
+  | VPanic _ | VInternal _ => False
+  end.
+Proof. first [exact Language.compiled_runs_clean | apply Language.compiled_runs_clean]. Qed.
+Print Assumptions C10_compiled_runs_clean.
 
 Example C10_example :
   verify (pr_prog (parse_whole (bs "input") (bs "var x = 1 and 2 or 3 def b { f = x and x } print x"))) = true.
